@@ -213,8 +213,16 @@ def correspondence(spec, items, shard_size=400):
 
 
 def load_findings():
+	"""known_findings.json plus one optional file per property under known_findings.d/ (same format);
+	all committed, none written at run time"""
 	with open(os.path.join(ROOT, 'known_findings.json')) as fd:
-		return json.load(fd)
+		data = json.load(fd)
+	for path in sorted(glob.glob(os.path.join(ROOT, 'known_findings.d', '*.json'))):
+		with open(path) as fd:
+			extra = json.load(fd)
+		data.setdefault('known', []).extend(extra.get('known', []))
+		data.setdefault('fixed', []).extend(extra.get('fixed', []))
+	return data
 
 
 def jdump(obj):
